@@ -203,3 +203,77 @@ func splitExtensions(d *dynamicpb.Message) (*dynamicpb.Message, []byte) {
 	}
 	return rest, raw
 }
+
+// invalidUTF8 switches build to string values that are not valid UTF-8 (every set string of the top-level message and of
+// the messages below it gets bytes appended that do not form a code point). Go strings hold arbitrary bytes; what a
+// generated Size() counts and what MarshalTo writes must agree for them as well (C04 only - the reference runtimes
+// refuse such proto3 strings, so there is nothing to compare the output with).
+var (
+	invalidUTF8      bool
+	invalidUTF8Poked int
+)
+
+var invalidTails = []string{"\xe9", "\xc3", "\xff\xfe", "\xe2\x82", "\xf0\x9f\x98\xed\xa0"}
+
+func pokeInvalidUTF8(pv reflect.Value, depth int) int {
+	// only the strings of the message itself: messages below it may belong to a runtime that validates UTF-8 when it
+	// marshals them (gogo and protobuf-go do for proto3), which is then the correct outcome
+	if pv.Kind() != reflect.Ptr || pv.IsNil() || pv.Elem().Kind() != reflect.Struct || depth > 0 {
+		return 0
+	}
+	sv := pv.Elem()
+	st := sv.Type()
+	n := 0
+	for i := 0; i < st.NumField(); i++ {
+		if st.Field(i).Tag.Get("protobuf") == "" || !sv.Field(i).CanSet() {
+			continue
+		}
+		fv := sv.Field(i)
+		tail := invalidTails[(i+depth)%len(invalidTails)]
+		switch fv.Kind() {
+		case reflect.String:
+			if fv.Len() > 0 {
+				fv.SetString(fv.String() + tail)
+				n++
+			}
+		case reflect.Ptr:
+			if fv.IsNil() {
+				continue
+			}
+			if fv.Elem().Kind() == reflect.String {
+				fv.Elem().SetString(fv.Elem().String() + tail)
+				n++
+			} else {
+				n += pokeInvalidUTF8(fv, depth+1)
+			}
+		case reflect.Slice:
+			for k := 0; k < fv.Len(); k++ {
+				ev := fv.Index(k)
+				if ev.Kind() == reflect.String {
+					ev.SetString(ev.String() + tail)
+					n++
+				} else if ev.Kind() == reflect.Ptr {
+					n += pokeInvalidUTF8(ev, depth+1)
+				}
+			}
+		case reflect.Map:
+			if fv.Type().Elem().Kind() == reflect.String {
+				it := fv.MapRange()
+				var keys []reflect.Value
+				for it.Next() {
+					keys = append(keys, it.Key())
+				}
+				for _, k := range keys {
+					fv.SetMapIndex(k, reflect.ValueOf(fv.MapIndex(k).String()+tail).Convert(fv.Type().Elem()))
+					n++
+				}
+			} else if fv.Type().Elem().Kind() == reflect.Ptr {
+				it := fv.MapRange()
+				for it.Next() {
+					n += pokeInvalidUTF8(it.Value(), depth+1)
+				}
+			}
+		}
+	}
+	return n
+}
